@@ -474,8 +474,8 @@ def run_chunk(spec):
     res = Result()
     tier, ci = spec["tier"], spec["chunk"]
     wd = Watchdog(res, 120.0)
-    n_async = 60 if tier == "quick" else 3000
-    n_sync = 8 if tier == "quick" else 150
+    n_async = 60 if tier == "quick" else 24000
+    n_sync = 8 if tier == "quick" else 600
     base = ci * 100000
     only = spec.get("only_case")
     for j in range(n_async):
